@@ -943,7 +943,7 @@ def pieces(ctx, harnesses):
     for i, (k, rc, err) in crashes:
         report(ctx, "crash:pieces:" + vlib.sha(lines[i])[:10],
                "real writer code aborted (rc=%d) on an ops line: %s" % (rc, err[-400:]),
-               {"kind": "ops", "line": lines[i][:100000], "stderr": err})
+               {"kind": "ops", "line": lines[i], "stderr": err})
     if crashes:
         return {"evaluations": len(lines)}
     for i, (l, m) in enumerate(zip_strict(lines, meta)):
@@ -980,12 +980,12 @@ def pieces(ctx, harnesses):
         if bad:
             disagreements += 1
             report(ctx, "piece:%s:%s" % (op, vlib.sha(l)[:10]), "real %s violates its specification: %s" % (op, "; ".join(bad)[:300]),
-                          {"kind": "ops", "line": l[:100000], "impl": a[:500], "model": b[:500], "clauses": bad})
+                          {"kind": "ops", "line": l, "impl": a[:500], "model": b[:500], "clauses": bad})
         elif a != b:
             disagreements += 1
             report(ctx, "corr:%s:%s" % (op, vlib.sha(l)[:10]),
                           "correspondence broke for %s (impl=%s model=%s) but no specification clause fails" % (op, a[:120], b[:120]),
-                          {"kind": "ops", "line": l[:100000], "impl": a[:2000], "model": b[:2000]}, found_input=False)
+                          {"kind": "ops", "line": l, "impl": a[:2000], "model": b[:2000]}, found_input=False)
     # D8
     if d8crash:
         report(ctx, "crash:ids65536", "real id table code aborted: %s" % d8crash[2][-300:], {"kind": "ops", "line": d8_lines[0]})
